@@ -80,6 +80,19 @@ func CheckC01(s *Session, st *StepObs) []Finding {
 			out = append(out, Finding{"c01/stale-hash-found/after-" + kindClass(st.Kind), fmt.Sprintf("hash not on the stored chain is still found by hash (height %d/%d, errs %v/%v)", ht, ht2, err, err2)})
 		}
 	}
+	// Everything this step removed, and everything removed earlier (bounded,
+	// deterministic order): a removed hash must not be found any more.
+	for _, h := range hashesOf(st.Pre) {
+		if _, on := onChain[h]; !on {
+			s.Removed = append(s.Removed, h)
+		}
+	}
+	if len(s.Removed) > 600 {
+		s.Removed = append([]chainhash.Hash(nil), s.Removed[len(s.Removed)-600:]...)
+	}
+	for _, h := range s.Removed {
+		check(h)
+	}
 	n := 0
 	for h := range s.Offered {
 		if n > 400 {
